@@ -894,7 +894,9 @@ func parseMovementValue(p *Parser, allowMultiple bool, closingToken token.Type) 
 	for p.curToken.Type != closingToken {
 		if p.curToken.Type == token.PORYSWITCH {
 			poryswitchCommands, err := p.parsePoryswitchListStatement(func(p *Parser, allowMultiple bool) ([]token.Token, error) {
-				return parseMovementValue(p, allowMultiple, closingToken)
+				// A case ends at the closing curly brace of the case (brace form) or of the
+				// poryswitch (colon form), regardless of what closes the surrounding list.
+				return parseMovementValue(p, allowMultiple, token.RBRACE)
 			})
 			if err != nil {
 				return nil, err
